@@ -350,3 +350,20 @@ func (fc *FnCtx) merge2(a, b *State) *State {
 	}
 	return n
 }
+
+// materializeStruct makes every field of a struct value explicit (fields of unknown structs are created lazily), so
+// that comparing two struct values compares all of their fields -- not only those both sides happen to have touched.
+func (fc *FnCtx) materializeStruct(v Val, depth int) {
+	sv, ok := v.(VStruct)
+	if !ok || sv.F == nil || depth > 3 {
+		return
+	}
+	st, ok := sv.Typ.Underlying().(*types.Struct)
+	if !ok {
+		return
+	}
+	for i := 0; i < st.NumFields(); i++ {
+		f, _ := fc.structField(sv, st.Field(i).Name(), "m")
+		fc.materializeStruct(f, depth+1)
+	}
+}
